@@ -15,6 +15,7 @@
    protobuf-c and libprotobuf). *)
 From Coq Require Import ZArith List Bool.
 From PBC Require Import Base.CInt Impl.Desc Impl.Mem Impl.Enc Impl.Pack Impl.Unpack Impl.Canon Impl.Older Proofs.Required Proofs.Unknown Proofs.MsgRT4 Proofs.OlderEnv Proofs.OlderProj Proofs.Forward Proofs.Examples.
+From PBC Require Spec.WireRaw Impl.SpecParse Proofs.LeafSafe Proofs.SpecRefine5 Proofs.SpecUnknown.
 Import ListNotations.
 Local Open Scope Z_scope.
 
@@ -72,3 +73,24 @@ Theorem C09_what_the_older_program_sees : forall (E : env) (keep : nat -> field 
   exists b', pack_msg (older keep E) (proj E keep m) = Ok b' /\ length b' = length b /\ unpack_top E (m_desc m) b' = Ok m.
 Proof. exact forward_compatible_proj. Qed.
 Print Assumptions C09_what_the_older_program_sees.
+
+(* ---- stated against the REFERENCE READER (Spec/WireRaw.v, compared with libprotobuf on every run): for every env_ok
+   schema and every input <= 268435425 bytes that the specification-level parser (Impl/SpecParse.v) reads -- canonical
+   or not, fields in any order, padded, split -- the implementation model returns that value, and the unknown fields
+   it retains are EXACTLY the reference reader's records whose number the schema does not know, in wire order, each
+   with its number, wire type and exact bytes (SpecUnknown.unknown_records: a flat_map over the records). *)
+Theorem C09_retained_unknowns_are_exactly_the_unknown_records : forall (E : env) d b m,
+  env_ok E = true -> LeafSafe.bytes b -> Mem.zlen b <= 268435425 ->
+  SpecParse.spec_parse_top E d b = Some m ->
+  unpack_top E d b = Ok m /\
+  exists md rs, nth_error E d = Some md /\ WireRaw.read_raw 5 b = Some rs /\
+                m_unk m = SpecUnknown.unknown_records md rs.
+Proof. exact SpecUnknown.unpack_retains_exactly_the_unknown_records. Qed.
+Print Assumptions C09_retained_unknowns_are_exactly_the_unknown_records.
+
+(* non-vacuity: a non-canonical input of the example schema ending with field 1000, which the schema does not know *)
+Theorem C09_unknown_records_not_vacuous :
+  exists m, SpecParse.spec_parse_top ex_env 0 SpecRefine5.ex_bytes = Some m /\
+            m_unk m = [{| u_tag := 1000; u_wt := 0; u_data := [1] |}].
+Proof. exact SpecUnknown.unknown_records_example. Qed.
+Print Assumptions C09_unknown_records_not_vacuous.
